@@ -485,7 +485,7 @@ def check_c16(prop, tier, seed, sd, t0):
                        'an empty and a negative one with nested sum and max; date ranges) over generated corpora (1..14 documents, 1..3 segments, pending deletions; numeric field with 0..2 '
                        'values incl. negatives, weight field sometimes missing, keyword field single- or multi-valued or missing, date field) x 3 queries x 8 (12) request settings: AllMatches, '
                        'and TopN with n in {0,1,2,3,10,11,50}, from in {0,1,3,12}, four sort orders, and After/Before paging keys; TLC evaluates Aggs.tla on the matched documents (obtained by a '
-                       'separate AllMatches run) for every line, so every setting is compared with the same setting-independent value; distinct = distinct logged lines',
+                       'separate AllMatches run) for every line, so every setting is compared with the same setting-independent value; every other request is a GENERATED aggregation tree (2..6 top-level aggregations of all kinds, value sources plain or wrapped by FilterNumeric / FilterText / FilterDate, bucket aggregations nested to depth 2 with 0..3 sub-aggregations) judged by the recursive evaluator Aggs!Chk; one corpus of 1 500+ documents in a single segment per run; distinct = distinct logged lines',
                        ['matched documents are taken from an AllMatches run of the same query (C07 decides that set)', 'floats are compared in thousandths (avg / weighted avg / quantiles)',
                         'the cardinality sketch is exact at these sizes (<= 5 distinct values)', 'bucket aggregations consume a document once per value in the bucket (transcribed from range.go/terms.go)'],
                        unit='"ev":"agg', selfcontained=True, chunk=700 if tier == 'quick' else 6000)
